@@ -70,6 +70,17 @@ func applyCrashOps(dir string, ops []crashOp) error {
 			}
 		}
 	}()
+	// a caller keeps one descriptor value (and hence one annotations map) per manifest and
+	// annotation, and uses it for every operation on that manifest
+	kept := map[string]ocispec.Descriptor{}
+	descFor := func(o crashOp) ocispec.Descriptor {
+		k := o.MediaType + "|" + string(o.Data) + "|" + o.Ann
+		if d, ok := kept[k]; ok {
+			return d
+		}
+		kept[k] = o.desc()
+		return kept[k]
+	}
 	for _, o := range ops {
 		s.AutoSaveIndex = o.AutoSave
 		s.AutoGC = o.AutoGC
@@ -77,7 +88,7 @@ func applyCrashOps(dir string, ops []crashOp) error {
 		case "push":
 			err = s.Push(ctx, o.desc(), bytes.NewReader(o.Data))
 		case "tag":
-			err = s.Tag(ctx, o.desc(), o.Ref)
+			err = s.Tag(ctx, descFor(o), o.Ref)
 		case "untag":
 			err = s.Untag(ctx, o.Ref)
 		case "delete":
